@@ -91,9 +91,18 @@ func mangle(sqlText string, bits []bool, off int) string {
 	return string(out)
 }
 
+// sharedCols is a list of column names every goroutine passes to Select: an
+// input, which nobody writes to. The spellings are not those of the
+// definitions (which differ between the files, too).
+var sharedCols = []string{"a", "B", "c"}
+
 func schemaStmts(rows int) []string {
+	tdef := "CREATE TABLE t (a INTEGER PRIMARY KEY, b, c TEXT COLLATE NOCASE)"
+	if rows == 700 {
+		tdef = "CREATE TABLE t (A INTEGER PRIMARY KEY, b, C TEXT COLLATE NOCASE)"
+	}
 	return []string{
-		"CREATE TABLE t (a INTEGER PRIMARY KEY, b, c TEXT COLLATE NOCASE)",
+		tdef,
 		"CREATE INDEX tb ON t (b)",
 		"CREATE INDEX tc ON t (c)",
 		"CREATE TABLE w (k TEXT PRIMARY KEY, v, u) WITHOUT ROWID",
@@ -277,7 +286,11 @@ func runOp(h *handles, o opSpec, yield bool, pattern []bool) string {
 				cb(row)
 			}, "a", "b", "c")
 		case "select":
-			err = d.Select("t", cb, "a", "b", "c")
+			if o.Arg%2 == 0 {
+				err = d.Select("t", cb, sharedCols...)
+			} else {
+				err = d.Select("t", cb, "a", "b", "c")
+			}
 		case "select-wr":
 			err = d.Select("w", cb, "k", "v")
 		case "indexed":
@@ -394,6 +407,9 @@ func runOp(h *handles, o opSpec, yield bool, pattern []bool) string {
 		}
 	case "driver":
 		q := "SELECT a, c FROM t"
+		if o.Arg%3 == 0 {
+			q = "SELECT A, C FROM t" // (not the spelling of any of the definitions)
+		}
 		if o.File == freshFile {
 			q = mangle(q, pattern, o.Arg)
 		}
@@ -401,6 +417,9 @@ func runOp(h *handles, o opSpec, yield bool, pattern []bool) string {
 		if err != nil {
 			return fail(err)
 		}
+		// the column names are there before the first row is
+		names, _ := rows.Columns()
+		fmt.Fprint(&b, names, ";")
 		for rows.Next() {
 			var a, c interface{}
 			if err := rows.Scan(&a, &c); err != nil {
